@@ -60,5 +60,8 @@ Mon ==
   /\ Chk(AtFinal /\ F.headGood => (F.cur # 0 /\ F.curContent = F.head), "C19",
          "the undisturbed run did not make the newest compiling revision current", "")
   /\ Chk(AtFinal /\ ~F.headGood => F.cur = F.curBefore, "C19", "a revision that does not compile changed `current`", "")
+  \* the head does not compile: the newest revision of the history that does is the one `current` shows
+  /\ Chk(AtFinal /\ ~F.headGood /\ F.best # "" => F.curContent = F.best, "C19",
+         "the newest compiling revision of the history is not current (the head does not compile)", "")
 Accepted == TLCGet("stats").diameter = Len(Trace)
 =============================================================================
